@@ -90,10 +90,11 @@ func (c *RpcServiceController) HandleDirective(
 		serviceID := d.LookupRpcServiceID()
 		// if we have no filters, match all.
 		matched := len(c.serviceIdPrefixes) == 0 && c.serviceIdRe == nil && len(c.serviceIdList) == 0
+		var matchedPrefix bool
 		if !matched && len(c.serviceIdPrefixes) != 0 {
 			for _, prefix := range c.serviceIdPrefixes {
 				if strings.HasPrefix(serviceID, prefix) {
-					matched = true
+					matched, matchedPrefix = true, true
 					break
 				}
 			}
@@ -121,7 +122,10 @@ func (c *RpcServiceController) HandleDirective(
 						return nil, nil
 					}
 					var invoker LookupRpcServiceValue = val //nolint:staticcheck
-					if c.stripServiceIdPrefix {
+					// strip the prefix only if the service id was matched by a
+					// prefix: the prefix invoker rejects ids without one, which
+					// made services matched by the regex or the list unreachable.
+					if c.stripServiceIdPrefix && matchedPrefix {
 						invoker = srpc.NewPrefixInvoker(invoker, c.serviceIdPrefixes)
 					}
 					return invoker, nil
